@@ -12,7 +12,11 @@
  *   burst k.. | burstmt k..   back-to-back hand-overs (burstmt: one thread each); with a "stall" trigger
  *                 the loop thread is held inside cb_msg meanwhile, so the wake-ups coalesce
  *   await k       wait (bounded) until the server has read everything sent on k; logs "await k recv sent"
- *   trig <conn> <threshold> stall
+ *   trig <conn> <threshold> stall | halfclose | shutexit k2
+ *   waitstall | unstall   wait until the loop thread sits in the stall trigger / let it go: what peers do in
+ *                 between (write + close, reply after a half-close, reset) reaches the loop as ONE readiness report
+ *   waiteof k     client k waits (bounded) for the end of stream from the server (after a halfclose trigger)
+ *   creset k      client k closes with SO_LINGER 0: a reset (bytes in flight may be dropped; logged "creset k")
  *   pipe writers=<W> per=<K> seed=<s> rfrag=<0..2> wfrag=<0|1> psize=<bytes|0>
  */
 #define _GNU_SOURCE
@@ -43,8 +47,9 @@
 #define MAXTRIG 256
 #define MAXCHUNK 64
 
-enum { A_RETAIN = 1, A_SHUT, A_EXIT, A_HANDEXIT, A_STALL };
-enum { S_CONN = 1, S_HAND, S_SEND, S_CCLOSE, S_WREL, S_WSHUT, S_XEXIT, S_SYNC, S_SLEEP, S_PREHAND, S_BURST, S_BURSTMT, S_AWAIT };
+enum { A_RETAIN = 1, A_SHUT, A_EXIT, A_HANDEXIT, A_STALL, A_HALFCLOSE, A_SHUTEXIT };
+enum { S_CONN = 1, S_HAND, S_SEND, S_CCLOSE, S_WREL, S_WSHUT, S_XEXIT, S_SYNC, S_SLEEP, S_PREHAND, S_BURST, S_BURSTMT, S_AWAIT,
+	S_UNSTALL, S_WAITSTALL, S_WAITEOF, S_CRESET };
 
 struct trig { int conn; long thr; int act; int arg; int fired; };
 struct step { int op; int a; long n; int nch; int ch[MAXCHUNK]; };
@@ -72,8 +77,10 @@ static int cl_fd[MAXCONN], cl_ok[MAXCONN], cl_closed[MAXCONN], cl_port[MAXCONN],
 static long cl_sent[MAXCONN];
 static long sv_recv[MAXCONN];
 static int sv_ctx[MAXCONN];       /* ctx id bound to the connection, -1 none */
+static int sv_announced[MAXCONN]; /* cb_conn / cb_add_ctx seen (loop thread only) */
 static int sv_closed[MAXCONN];    /* cb_close (or a failed registration) seen for that context */
 static int ctx_conn[SH_MAXCTX];   /* ctx id -> conn, -1 listener / unknown */
+static muggle_socket_context_t *ctx_ptr[SH_MAXCTX];   /* loop thread only: valid while the loop owns the context */
 static int g_connects, g_connseq;
 
 static unsigned char pay(unsigned long long seed, int k, long j)
@@ -196,6 +203,7 @@ static muggle_socket_context_t *make_ctx(int fd, int type, int conn, int *out_id
 	int id = sh_ctx_new_locked(ctx);
 	sh_map_fd(fd, id);
 	ctx_conn[id] = conn;
+	ctx_ptr[id] = ctx;
 	if (conn >= 0) sv_ctx[conn] = id;
 	if (conn >= 0) sh_logf_locked("halloc %d %d", id, conn);
 	else sh_logf_locked("halloc %d L", id);
@@ -307,6 +315,24 @@ static int run_triggers(muggle_event_loop_t *evloop, muggle_socket_context_t *ct
 			__atomic_store_n(&g_stalled, 0, __ATOMIC_SEQ_CST);
 			sh_logf("unstall");
 		} break;
+		case A_HALFCLOSE:
+			/* the application finishes its own direction only; the context stays registered */
+			sh_logf("halfclose %d", id);
+			shutdown(ctx->base.fd, SHUT_WR);
+			break;
+		case A_SHUTEXIT: {
+			/* shut ANOTHER registered context down and leave in the same callback: its CLOSED flag
+			 * is set but the back-end never gets to dispatch its close; on_clear must release it */
+			int k2 = t->arg;
+			if (k2 >= 0 && k2 < MAXCONN && k2 != k && sv_ctx[k2] >= 0 && sv_announced[k2] &&
+				!__atomic_load_n(&sv_closed[k2], __ATOMIC_SEQ_CST)) {
+				sh_logf("shut %d", sv_ctx[k2]);
+				muggle_socket_ctx_shutdown(ctx_ptr[sv_ctx[k2]]);
+			}
+			__atomic_store_n(&g_exit_req, 1, __ATOMIC_SEQ_CST);
+			sh_logf("exitreq");
+			muggle_evloop_exit(evloop);
+		} break;
 		case A_HANDEXIT:
 			__atomic_store_n(&g_exit_req, 1, __ATOMIC_SEQ_CST);
 			if (t->arg >= 0 && t->arg < MAXCONN && !cl_ok[t->arg]) hand_pair(t->arg);
@@ -334,6 +360,7 @@ static muggle_socket_context_t *cb_alloc(void *pool)
 	sh_lock();
 	int id = sh_ctx_new_locked(ctx);
 	ctx_conn[id] = -2;                    /* accepted, connection not known yet */
+	ctx_ptr[id] = ctx;
 	sh_logf_locked("alloc %d", id);
 	sh_unlock();
 	return ctx;
@@ -377,6 +404,7 @@ static void cb_conn(muggle_event_loop_t *evloop, muggle_socket_context_t *ctx)
 	if (id >= 0) ctx_conn[id] = k;
 	if (k >= 0) sv_ctx[k] = id;
 	sh_logf("conn %d %d", id, k);
+	if (k >= 0) sv_announced[k] = 1;
 	__atomic_fetch_add(&g_acc_done, 1, __ATOMIC_SEQ_CST);
 	run_triggers(evloop, ctx, id, k, 0);
 }
@@ -384,6 +412,7 @@ static void cb_add_ctx(muggle_event_loop_t *evloop, muggle_socket_context_t *ctx
 {
 	int id = sh_ctx_id(ctx);
 	sh_logf("addctx %d", id);
+	if (id >= 0 && ctx_conn[id] >= 0) sv_announced[ctx_conn[id]] = 1;
 	if (id == g_listener_id) __atomic_store_n(&g_listener_state, 1, __ATOMIC_SEQ_CST);
 	if (id >= 0 && ctx->sock_type != MUGGLE_SOCKET_CTX_TYPE_TCP_LISTEN)
 		run_triggers(evloop, ctx, id, ctx_conn[id], 1);
@@ -557,7 +586,7 @@ static void run_socket_case(void)
 	int fds0 = sh_open_fds();
 	memset(cl_fd, -1, sizeof(cl_fd)); memset(cl_ok, 0, sizeof(cl_ok)); memset(cl_closed, 0, sizeof(cl_closed));
 	memset(cl_port, 0, sizeof(cl_port)); memset(cl_sent, 0, sizeof(cl_sent)); memset(sv_recv, 0, sizeof(sv_recv));
-	memset(sv_closed, 0, sizeof(sv_closed));
+	memset(sv_closed, 0, sizeof(sv_closed)); memset(sv_announced, 0, sizeof(sv_announced));
 	for (int i = 0; i < MAXCONN; i++) sv_ctx[i] = -1;
 	for (int i = 0; i < SH_MAXCTX; i++) ctx_conn[i] = -1;
 	g_alloc_calls = 0; g_exit_req = 0; g_returned = 0; g_acc_done = 0; g_connects = 0;
@@ -628,6 +657,26 @@ static void run_socket_case(void)
 		case S_BURST: if (!__atomic_load_n(&g_exit_req, __ATOMIC_SEQ_CST)) do_burst(s, 0); break;
 		case S_BURSTMT: if (!__atomic_load_n(&g_exit_req, __ATOMIC_SEQ_CST)) do_burst(s, 1); break;
 		case S_AWAIT: do_await(s->a); break;
+		case S_UNSTALL: __atomic_store_n(&g_unstall, 1, __ATOMIC_SEQ_CST); break;
+		case S_WAITSTALL: {
+			double t0 = now_s();
+			while (!__atomic_load_n(&g_stalled, __ATOMIC_SEQ_CST) && now_s() - t0 < 0.3) msleep_(1);
+		} break;
+		case S_WAITEOF:
+			if (cl_ok[s->a] && !cl_closed[s->a]) {
+				struct timeval tv = { 0, 500000 }; char b[64]; ssize_t r;
+				setsockopt(cl_fd[s->a], SOL_SOCKET, SO_RCVTIMEO, &tv, sizeof(tv));
+				while ((r = recv(cl_fd[s->a], b, sizeof(b), 0)) > 0) {}
+			}
+			break;
+		case S_CRESET:
+			if (cl_ok[s->a] && !cl_closed[s->a]) {
+				struct linger lg = { 1, 0 };
+				sh_logf("creset %d", s->a);
+				setsockopt(cl_fd[s->a], SOL_SOCKET, SO_LINGER, &lg, sizeof(lg));
+				close(cl_fd[s->a]); cl_closed[s->a] = 1;
+			}
+			break;
 		case S_PREHAND: break;
 		}
 	}
@@ -764,7 +813,8 @@ static void case_line(char *line)
 		struct trig *t = &c_trig[c_ntrig++];
 		t->conn = k; t->thr = thr; t->fired = 0; t->arg = arg;
 		t->act = strcmp(act, "retain") == 0 ? A_RETAIN : strcmp(act, "shut") == 0 ? A_SHUT :
-			strcmp(act, "exit") == 0 ? A_EXIT : strcmp(act, "stall") == 0 ? A_STALL : A_HANDEXIT;
+			strcmp(act, "exit") == 0 ? A_EXIT : strcmp(act, "stall") == 0 ? A_STALL :
+			strcmp(act, "halfclose") == 0 ? A_HALFCLOSE : strcmp(act, "shutexit") == 0 ? A_SHUTEXIT : A_HANDEXIT;
 		if (t->act == A_RETAIN && (arg < 0 || arg >= MAXW)) c_ntrig--;
 	} else {
 		if (c_nstep >= MAXSTEP) return;
@@ -782,6 +832,10 @@ static void case_line(char *line)
 		else if (strcmp(op, "sync") == 0) s->op = S_SYNC;
 		else if (strcmp(op, "sleep") == 0) s->op = S_SLEEP;
 		else if (strcmp(op, "await") == 0) s->op = S_AWAIT;
+		else if (strcmp(op, "unstall") == 0) s->op = S_UNSTALL;
+		else if (strcmp(op, "waitstall") == 0) s->op = S_WAITSTALL;
+		else if (strcmp(op, "waiteof") == 0) s->op = S_WAITEOF;
+		else if (strcmp(op, "creset") == 0) s->op = S_CRESET;
 		else if (strcmp(op, "prehand") == 0 || strcmp(op, "burst") == 0 || strcmp(op, "burstmt") == 0) {
 			s->op = strcmp(op, "prehand") == 0 ? S_PREHAND : strcmp(op, "burst") == 0 ? S_BURST : S_BURSTMT;
 			char *p = line + strlen(op);
@@ -803,7 +857,7 @@ static void case_line(char *line)
 				s->ch[s->nch++] = (int)strtol(p, &p, 10);
 			}
 		} else return;
-		if ((s->op == S_CONN || s->op == S_HAND || s->op == S_SEND || s->op == S_CCLOSE || s->op == S_AWAIT) && (a < 0 || a >= MAXCONN)) return;
+		if ((s->op == S_CONN || s->op == S_HAND || s->op == S_SEND || s->op == S_CCLOSE || s->op == S_AWAIT || s->op == S_WAITEOF || s->op == S_CRESET) && (a < 0 || a >= MAXCONN)) return;
 		if ((s->op == S_WREL || s->op == S_WSHUT) && (a < 0 || a >= MAXW)) return;
 		c_nstep++;
 	}
